@@ -99,7 +99,7 @@ SHEETS = {
               'unicode-range:U+0-7F;filter:alpha(opacity=50);content:"a\\"b" \'c\' "";quotes:"\\201c" "\\201d";font:italic bold 0.8em/1.2 Arial,sans-serif;'
               'transform:translate(-0.5px,0.5px) rotate(0.25turn);z-index:-1;color:hsl(120,100%,50%)!important}'
               '@media screen and (min-width:0.5em) and (max-width:10.5em),print{b[c="d e"]:not(.f)>g{left:+.5px;top:-.5em}}',
-    'mlcomment': 'a{/*one\ntwo*/color:red}@media print{/*x\n  y*/b{left:0}}',
+    'mlcomment': 'a{/*one\ntwo*/color:red}@media print{/*x\n  y*/b{left:0}}c{/*/ x\ny */top:0;/*/*/left:0}',
     'spec': 'e{left:0}e.f{left:1px}@media print{g{top:0}g.h{top:1px}}e.f .g{left:2px}',
     'mix': '@IMPORT "i.css";@namespace u "http://u";@namespace n "http://n";@variables{V:red;w:0.5px}/*c0*/'
            '@MEDIA print{u|a{c\\olor:red;color:1px !IMPORTANT;left:var(w);left:nope;/*c1*/}@x y;b{}}'
